@@ -18,6 +18,7 @@ pub mod c03conn;
 pub mod c04;
 pub mod c05;
 pub mod c05proc;
+pub mod c05quic;
 pub mod c06;
 pub mod c07;
 pub mod c08;
